@@ -16,7 +16,7 @@ RULE = ('the option `interp` that both transform functions accept is passed as T
         '(h) get_max_stockwell_freq (Signal / AccSignal, the cached swtf = transform(values)) and get_max_tifq_vals_freq against argmax of re^2+im^2 of the same matrix and the axis k/(N dt) '
         '(columns with near-ties skipped as fragile); (h\') the same on ONE object with a history: first answer obtained (swtf assigned or built by the call), the returned trace '
         'overwritten in place by the caller, reset_values(new record, possibly another length) + swtf = transform(values) (or del swtf: rebuilt = transform(values now) bit for bit), '
-        'second and third answers against argmax / axis of the swtf the object holds now; (i) TEST (not a theorem): trace of on-grid sinusoids over the middle half of the record (every third one on an object that already answered for another sinusoid); '
+        'second and third answers against argmax / axis of the swtf the object holds now; (i) TEST (not a theorem): trace of on-grid sinusoids over the middle half of the record (every third one on an object that already answered for another sinusoid), amplitude 0.1..20 and, through get_max_stockwell_freq and get_max_tifq_vals_freq(transform(values)), very small amplitudes 1e-9 / 2e-8 (the trace does not depend on the record\'s units); '
         'non-trivial = record / matrix not identically zero')
 TRUSTED = [
     'Coq 8.16.1 kernel + vm_compute; Coq Interval tactic (proofs checked by the kernel at Qed)',
@@ -157,6 +157,9 @@ def replay_call(rp):
                                      a['swtf_after_reset_values'], a['returned_traces_overwritten'])[2]
     if 'get_max_stockwell_freq' in f:
         return impl_max_freq(a.get('cls', 'Signal'), a['values'], a['dt'])[1]
+    if 'get_max_tifq' in f and 'values' in a:      # the trace of transform(values)
+        t = impl_transform(0, a['values'])
+        return impl_max_tifq(t.real, t.imag, a['dt'])
     if 'get_max_tifq' in f:
         return impl_max_tifq(a['re'], a['im'], a['dt'])
     if 'itransform o' in f:
@@ -624,6 +627,38 @@ def run(rep, rng, tier):
         stats['dominant_tests'] += 1
         coq = 'CDom (%d)%%Z (%d)%%Z %s (%d)%%Z %s %s' % (N, k0, q(dt), len(mf), qlist(mf[N // 4:(3 * N) // 4]), q(Fraction(1, 10 ** 12)))
         cases.append(Case(coq, {'function': 'get_max_stockwell_freq', 'args': args, 'impl': {'max_f': mf}}, site, nontrivial=True, klass=site))
+
+    # ---- (i') the same clause on records of very small amplitude (1e-9 .. 2e-8: ambient vibration in SI units, accelerations in g of a
+    #      quiet site): the trace does not depend on the units the record is stored in.  Both readers of the time-frequency matrix.
+    weak = [(1e-9, 0), (2e-8, 1), (1e-9, 1), (2e-8, 0)] if quick else [(a, w) for a in (1e-9, 2e-8, 5e-9, 1e-8, 3e-10, 1e-12) for w in (0, 1)] * 3
+    for k, (amp, which) in enumerate(weak):
+        n = rng.choice([16, 33, 64, 100]) if k % 2 == 0 else rng.randint(8, 150)
+        n2 = n // 2
+        N = 2 * n2
+        khi = int(0.75 * n2)
+        k0 = rng.choice([2, khi, rng.randint(2, khi)])
+        dt = rng.choice([0.01, 0.005, 0.02, gens.dyadic_dt(rng, 0, 7)])
+        ph = rng.choice([0.0, math.pi / 2, rng.uniform(0, 6.28)])
+        x = amp * np.cos(2 * np.pi * k0 * np.arange(n) / N + ph)
+        cls = 'AccSignal' if k % 4 < 2 else 'Signal'
+        args = {'values': [float(v) for v in x], 'dt': float(dt), 'k0': k0, 'N': N, 'amplitude': amp}
+        if which == 0:
+            fname, site = 'get_max_stockwell_freq', 'dominant:test[amplitude %g]' % amp
+            args['cls'] = cls
+            r = guarded(impl_max_freq, cls, x, dt)
+            mf = None if isinstance(r, ImplError) else r[1]
+        else:
+            fname, site = 'get_max_tifq_vals_freq(transform(values), dt)', 'dominant:test[get_max_tifq_vals_freq, amplitude %g]' % amp
+            r = guarded(impl_transform, 0, x)
+            if not isinstance(r, ImplError):
+                r = guarded(impl_max_tifq, r.real, r.imag, dt)
+            mf = None if isinstance(r, ImplError) else r
+        if isinstance(r, ImplError):
+            bad(site, args, r)
+            continue
+        stats['dominant_tests'] += 1
+        coq = 'CDom (%d)%%Z (%d)%%Z %s (%d)%%Z %s %s' % (N, k0, q(dt), len(mf), qlist(mf[N // 4:(3 * N) // 4]), q(Fraction(1, 10 ** 12)))
+        cases.append(Case(coq, {'function': fname, 'args': args, 'impl': {'max_f': mf}}, site, nontrivial=True, klass=site))
 
     t2 = time.time()
     rep.correspond('model.K_C15', 'check_case', cases, describe='model_out (%s)',
